@@ -63,7 +63,8 @@ def main():
     if rc != 0:
         rc, out = sh('git -C /repo apply --3way %s' % patch)
         if rc != 0:
-            print('patch does not apply to /repo HEAD:', out)
+            sh('git -C /repo checkout -f -- . ; git -C /repo reset -q --hard HEAD')  # a failed 3-way apply leaves conflict markers
+            print('patch does not apply to /repo HEAD (rebase it by hand, keep the original as patch.original.diff):', out)
             return 2
     t0 = time.time()
     try:
